@@ -238,7 +238,6 @@ func (mT *provider) retainInsert(topic string, obj vltypes.RetainObject) {
 	root := mT.leafInsertNode(levels)
 
 	root.retained.Store(retainer{val: obj})
-	atomic.AddInt32(&root.subsCount, -1)
 }
 
 func (mT *provider) retainRemove(topic string) error {
